@@ -289,4 +289,5 @@ class StringLiteral(BaseType):
     def _repr_literals(self):
         if self._overflow:
             return '...'
-        return ','.join(self._literals)
+        # Sorted and escaped: a set has no stable order and ',' may occur inside a literal
+        return json.dumps(sorted(self._literals))
